@@ -25,10 +25,10 @@ type CaseC04 struct {
 	Authors int        `json:"authors"`
 	Hist    []HistStep `json:"hist"`
 	PreSync bool       `json:"presync"`
-	Base    int        `json:"base"`  // index into the honest entries (mod len); -1: a fresh entry nobody has seen
+	Base    int        `json:"base"` // index into the honest entries (mod len); -1: a fresh entry nobody has seen
 	Field   string     `json:"field"`
-	Form    string     `json:"form"`  // A: head, claimed hash kept | B: head, hash recomputed | C: next of a valid colluding head | D: refs of a valid colluding head | E: next of a head that passes the pre-check but is refused at join
-	Route   string     `json:"route"` // sync | topic | direct | loadmore | snapqueue
+	Form    string     `json:"form"`              // A: head, claimed hash kept | B: head, hash recomputed | C: next of a valid colluding head | D: refs of a valid colluding head | E: next of a head that passes the pre-check but is refused at join
+	Route   string     `json:"route"`             // sync | topic | direct | loadmore | snapqueue
 	Restart bool       `json:"restart,omitempty"` // afterwards the replica restarts and loads its log
 }
 
